@@ -4,7 +4,7 @@ cd "$(dirname "$0")"
 mkdir -p .work/thorough
 for p in "$@"; do
   s=$(date +%s)
-  timeout 3600 ./check $p --tier thorough > .work/thorough/$p.log 2>&1
+  timeout 2700 ./check $p --tier thorough > .work/thorough/$p.log 2>&1
   rc=$?
   echo "$p rc=$rc $(( $(date +%s) - s ))s $(grep -E "^$p thorough:" .work/thorough/$p.log | tail -1)" >> .work/thorough/summary.txt
 done
